@@ -197,6 +197,17 @@ def const_val(e):
     e = peel(e, casts=True)
     if isinstance(e, tuple) and e[0] == 'const':
         return e[1]
+    if isinstance(e, tuple) and e[0] == 'bin':
+        a, b = const_val(e[2]), const_val(e[3])
+        if a is None or b is None:
+            return None
+        try:
+            r = _binop(e[1], a, b, 128)
+        except Exception:
+            return None
+        return r if not isinstance(r, tuple) else r[0]
+    if isinstance(e, tuple) and e[0] == 'un' and e[1] == 'Not':
+        return None
     if isinstance(e, tuple) and e[0] == 'agg' and len(e[2]) == 1:
         # newtype wrapper around a scalar, e.g. IcmpCode(0)
         return const_val(e[2][0])
@@ -581,6 +592,18 @@ class Fn:
                 return (self._project(val, rp[len(wp):]), True)
             if ov == 1:
                 return (('partial', self.call_expr(bi)), False)
+        # may-write through references captured by a closure that is handed to the callee
+        for a in t['args']:
+            if a['k'] not in ('move', 'copy') or a['place']['p']:
+                continue
+            lt = self.locals[a['place']['l']]['ty']
+            if 'closure' not in lt.lower():
+                continue
+            pv = self.value_of_local(a['place']['l'], pt)
+            for x in walk(pv):
+                if isinstance(x, tuple) and x[0] == 'ref' and self.root_of(x[1]) == rroot:
+                    if self._overlap(x[1], rlv) or self._overlap(rlv, x[1]):
+                        return (('modby', t['resolved'][0] if t['resolved'] else t['callee'], bi), False)
         # may-write through &mut arguments
         for a in t['args']:
             if a['k'] not in ('move', 'copy'):
@@ -999,3 +1022,157 @@ def fmt_of(e):
                 return [('lit', bytes.fromhex(s[1]).decode('utf-8', 'replace'))], []
             return None
     return None
+
+
+# --------------------------------------------------------------------------
+# P6: decision-table extraction by exhaustive evaluation of a pure guard region
+INT_W = {'u8': 8, 'u16': 16, 'u32': 32, 'u64': 64, 'usize': 64, 'u128': 128, 'bool': 1,
+         'i8': 8, 'i16': 16, 'i32': 32, 'i64': 64, 'isize': 64, 'i128': 128}
+
+
+def _binop(op, a, b, w):
+    m = (1 << w) - 1
+    if op in ('BitOr',):
+        return a | b
+    if op == 'BitAnd':
+        return a & b
+    if op == 'BitXor':
+        return a ^ b
+    if op == 'Eq':
+        return int(a == b)
+    if op == 'Ne':
+        return int(a != b)
+    if op == 'Lt':
+        return int(a < b)
+    if op == 'Le':
+        return int(a <= b)
+    if op == 'Gt':
+        return int(a > b)
+    if op == 'Ge':
+        return int(a >= b)
+    if op in ('Add', 'AddUnchecked'):
+        return (a + b) & m
+    if op in ('Sub', 'SubUnchecked'):
+        return (a - b) & m
+    if op in ('Mul', 'MulUnchecked'):
+        return (a * b) & m
+    if op in ('Shl', 'ShlUnchecked'):
+        return (a << b) & m
+    if op in ('Shr', 'ShrUnchecked'):
+        return a >> b
+    if op == 'AddWithOverflow':
+        return ((a + b) & m, int(a + b > m))
+    if op == 'SubWithOverflow':
+        return ((a - b) & m, int(a - b < 0))
+    if op == 'MulWithOverflow':
+        return ((a * b) & m, int(a * b > m))
+    if op == 'Div':
+        return a // b
+    if op == 'Rem':
+        return a % b
+    raise KeyError(op)
+
+
+def eval_region(fn, entry, env, max_steps=2000, stop_at=None):
+    """Concretely evaluate MIR from block `entry` with env {local: int|tuple}.
+    Only pure integer statements, switches, gotos and asserts are interpreted; the first
+    other terminator ends the region.  Returns (kind, block, env):
+      ('arm', b)   reached a non-interpretable terminator at block b (the arm head)
+      ('panic', b) an Assert failed at b
+      ('stuck', b) a needed value is unknown (region is not a pure guard) -> caller fails closed
+    """
+    env = dict(env)
+    refs = {}
+    B = fn.blocks
+
+    def width(l):
+        return INT_W.get(fn.locals[l]['ty'], 64)
+
+    def rd_place(p):
+        l, pr = p['l'], p['p']
+        if not pr:
+            return env[l]
+        if pr == ['deref']:
+            return env[refs[l]]
+        if len(pr) == 1 and isinstance(pr[0], dict) and 'f' in pr[0] and isinstance(env.get(l), tuple):
+            return env[l][pr[0]['i']]
+        raise KeyError(('place', l))
+
+    def rd(op):
+        if op['k'] == 'const':
+            if op.get('val') is not None:
+                return op['val']
+            raise KeyError('const')
+        return rd_place(op['place'])
+
+    bi = entry
+    steps = 0
+    while True:
+        steps += 1
+        if steps > max_steps:
+            return ('stuck', bi, env)
+        if stop_at is not None and bi in stop_at:
+            return ('arm', bi, env)
+        b = B[bi]
+        for s in b['stmts']:
+            lhs, rv = s['lhs'], s['rv']
+            k = rv['k']
+            if lhs['p']:
+                # store into memory: not part of a pure guard, but harmless if never read back
+                continue
+            l = lhs['l']
+            try:
+                if k == 'use':
+                    env[l] = rd(rv['a'])
+                elif k == 'ref':
+                    pl = rv['place']
+                    if not pl['p']:
+                        refs[l] = pl['l']
+                    elif pl['p'] == ['deref']:
+                        refs[l] = refs[pl['l']]
+                    else:
+                        env.pop(l, None)
+                        refs.pop(l, None)
+                elif k == 'bin':
+                    a, c = rd(rv['a']), rd(rv['b'])
+                    env[l] = _binop(rv['op'], a, c, width(l) if not rv['op'].endswith('WithOverflow') else
+                                    INT_W.get(re.sub(r'^\((\w+), bool\)$', r'\1', fn.locals[l]['ty']), 64))
+                elif k == 'un':
+                    a = rd(rv['a'])
+                    if rv['op'] == 'Not':
+                        env[l] = int(not a) if fn.locals[l]['ty'] == 'bool' else (~a) & ((1 << width(l)) - 1)
+                    elif rv['op'] == 'Neg':
+                        env[l] = (-a) & ((1 << width(l)) - 1)
+                    else:
+                        env.pop(l, None)
+                elif k == 'cast' and rv['kind'] == 'IntToInt':
+                    env[l] = rd(rv['a']) & ((1 << INT_W.get(rv['ty'], 64)) - 1)
+                else:
+                    env.pop(l, None)
+                    refs.pop(l, None)
+            except KeyError:
+                env.pop(l, None)
+        t = b['term']
+        if t['k'] == 'switch':
+            try:
+                v = rd(t['discr'])
+            except KeyError:
+                return ('stuck', bi, env)
+            nxt = t['otherwise']
+            for val, tg in t['targets']:
+                if val == v:
+                    nxt = tg
+            bi = nxt
+        elif t['k'] == 'goto':
+            bi = t['target']
+        elif t['k'] == 'assert':
+            try:
+                c = rd(t['cond'])
+            except KeyError:
+                return ('stuck', bi, env)
+            if bool(c) == bool(t['expected']):
+                bi = t['target']
+            else:
+                return ('panic', bi, env)
+        else:
+            return ('arm', bi, env)
